@@ -521,6 +521,32 @@ def gen_wide(rng, casedir, limit):
             "nofile": limit, "duplicates": k}
 
 
+def gen_empty_src(rng, casedir):
+    """explicit sources that name NO host (empty file, comments only, an include of an empty file, empty stdin)
+    while WCOLL names a DIFFERENT file that does: a source was given, so WCOLL is not consulted and the list is
+    empty ("no remote hosts specified"); mixed with the same command lines where one source does name a host"""
+    d = rng.choice(["e/", "t/u/"])        # (includes resolve to DIR/NAME: the same strings as the command line's)
+    empties = {"E": rng.choice(["", "\n", "# nothing\n", "  \n#\n", "#include Z\n"]), "Z": rng.choice(["", "# z\n"])}
+    wc = rng.choice(["h1\n", "h[1-2]\n# c\n", "#include V\n"])
+    files = dict(empties)
+    files["W"] = wc
+    files["V"] = "v1\n"
+    fs = {d + n: (True, ct) for n, ct in files.items()}
+    pool = [("f", d + "E"), ("f", d + "Z"), ("s",)]
+    sources = [rng.choice(pool) for _ in range(rng.randrange(1, 4))]
+    if rng.random() < 0.25:
+        sources.insert(rng.randrange(0, len(sources) + 1), ("w", "k1"))
+    if rng.random() < 0.3:
+        sources.append(("x", d + rng.choice(["E", "W"])))
+    stdin = rng.choice(["", "# no host here\n", "\n\n"]) if ("s",) in sources else None
+    env = rng.choice([d + "W", d + "W", d + "W", None])
+    wargs = []
+    for sc in sources:
+        wargs.append("^" + sc[1] if sc[0] == "f" else sc[1] if sc[0] == "w" else "-" if sc[0] == "s" else ("x", "^" + sc[1]))
+    return {"stream": "plain", "shape": "empty-source", "disk": dict(fs), "fs": dict(fs), "sources": sources,
+            "wargs": wargs, "stdin": stdin, "env": env, "casedir": casedir, "nfiles": len(files), "alt_spelling": False}
+
+
 # ------------------------------------------------------------------ running the real pdsh
 def materialise(case):
     d = case["casedir"]
@@ -916,7 +942,7 @@ def run(ctx):
                    "./, ../, absolute, and names that merely start with dots (.extraB, ..racksB, .d/listB: hidden "
                    "files/sub-directories, with decoy files of the same name in the current directory); pdsh runs in a "
                    "directory other than the top file's in 3 of 4 cases; comments, blanks, trailing comments, final line with and without newline) x "
-                   "source lists (^file, -w words, `-`/`^-` = stdin, WCOLL, exclusion files as `-x ^F` or `-^F`, comma-joined "
+                   "source lists (^file, -w words, explicit sources that name NO host while WCOLL names a file that does (`empty-source`),  `-`/`^-` = stdin, WCOLL, exclusion files as `-x ^F` or `-^F`, comma-joined "
                    "or separate options, all orders); streams: plain, broken (missing / mode-000 file, run as uid 1000), long (lines around "
                    "1023/2046/2047/2048/4095/6141 and up to 100 KiB made of a few short names placed across the buffer "
                    "boundaries in long runs of blanks/tabs/commas, optional comment tail; every name far below 1023 "
@@ -973,6 +999,8 @@ def run(ctx):
             for i in range(8 if ctx.quick() else 60):
                 cases.insert(rng.randrange(0, len(cases) + 1),
                              gen_wide(rng, os.path.join(base, "wide%d" % i), rng.choice([16, 24, 32, 64, 128])))
+            for i in range(24 if ctx.quick() else 300):
+                cases.insert(rng.randrange(0, len(cases) + 1), gen_empty_src(rng, os.path.join(base, "es%d" % i)))
             if not ctx.quick():
                 # every line length around the buffer boundaries x 3 line shapes
                 k = 0
